@@ -8,7 +8,8 @@ import (
 
 func BuildMethodParameters(parameters parser.IFormalParametersContext) []core_domain.CodeProperty {
 	var methodParams []core_domain.CodeProperty = nil
-	parameterList, ok := parameters.GetChild(1).(*parser.FormalParameterListContext)
+	// the list stands behind a receiver parameter in `void f(A this, int a)`: ask the rule, not a position
+	parameterList, ok := parameters.(*parser.FormalParametersContext).FormalParameterList().(*parser.FormalParameterListContext)
 	if !ok {
 		// a receiver parameter only: void f(A this)
 		return methodParams
